@@ -52,7 +52,25 @@ class Eval:
                     v = self.ev(f, e, env, cache, depth)
                     cache[repr(e)] = v
                 succ = [s for s in bl['succ']]
-                if len(succ) == 1:
+                lab = f.succs().get(b, ())
+                if any(l is not None and l[0] in ('case', 'default') for t, l in lab):
+                    sw = [l for t, l in lab if l is not None and l[0] in ('case', 'default')]
+                    expr = sw[0][2] if sw[0][0] == 'case' else sw[0][1]
+                    v = self.ev(f, expr, env, cache, depth)
+                    if not isinstance(v, int):
+                        return None
+                    nb = None
+                    for t, l in lab:
+                        if l is not None and l[0] == 'case' and v in l[1]:
+                            nb = t
+                    if nb is None:
+                        for t, l in lab:
+                            if l is not None and l[0] == 'default':
+                                nb = t
+                    if nb is None or nb < 0:
+                        return None
+                    b = nb
+                elif len(succ) == 1:
                     if succ[0] is None or succ[0] < 0:
                         return None
                     b = succ[0]
